@@ -488,6 +488,10 @@ def readme_claims(path):
 
 # ------------------------------------------------------------------ the check
 def run(ctx):
+    C.seam_check(ctx["report"], ctx["rundir"], "C13", wrappers=[],
+                 pairs=[("ms = 3; 5 ms", "5 ms"), ("kg = 70; 2 kg", "2 kg"), ("{1 km : km in {7, 8}}", "{1 km, 1 km}"), ("m = 3; 2 m", "2 m"), ("min = 3; 2 min", "2 min"),
+                        ("(1 km | m) == 1000", "1"), ("(1 mg | kg) * 1000000 == 1", "1"), ("1 km m", "1000 m^2"), ("(1 m^2) to km m", "1/1000"), ("(3 km | m) == 3000", "1"),
+                        ("(7 kg m | g s^2) to m | s^2", "7000"), ("(1 KiB | B) == 1024", "1"), ("(1 Mm | km) == 1000", "1"), ("1 km | h to m | h", "1000")])
     C.config_matrix(ctx["report"], ctx["rundir"], "C13", ["1 eur to usd", "1 gbp to eur", "1 keur to eur", "1 meur to eur", "1 kiloeuro to euros", "1 € to eur", "1 km to m", "1 KiB to B", "1 km | m", "1 mg | kg", "1 km m to m^2", "(1 m^2) to km m", "ms = 3; 5 ms to s", "kg = 70; 2 kg to g", "{1 km to m : km in {7, 8}}", "1 kdegC", "1 usd to usd", "100 jpy to usd"])
     C.seam_check(ctx["report"], ctx["rundir"], "C13",
                  texts=["1 kB to b", "1 MB to kB", "180 deg to rad", "3 dozen to dozen", "1 km to m", "1 fm to m", "1 kdegC", "1 Kin to inch", "1 dau to astronomicalunit",
